@@ -97,11 +97,13 @@ def alignCap (ch cap : Nat) : Nat := if ch = 0 then cap else cap - cap % ch
 
 /-- `Buffer.Append(src)`.  `self` says that `src` and `dst` are the same header (`b.Append(b)`);
 `g` is the capacity of the new backing array when the runtime has to grow (an input: Go's growth
-policy is a runtime detail; `g` is validated by `growOK`).
+policy is a runtime detail; `g` is validated by `growOK`; `C03.grow_whole_frames_admissible` shows that
+every raw capacity the runtime may deliver for the whole-frame request yields an admissible `g`).
 ```
 mustSame(dst.Channels(), src.Channels(), diffChannels)
 offset := dst.Len(); n := src.Len()
-if dst.Cap() < offset+n { dst.data = append(dst.data, make([]D, n)...) } else { dst.data = dst.data[:offset+n] }
+if dst.Cap() < offset+n { grow := n completed to a whole frame; dst.data = append(dst.data, make([]D, grow)...)[:offset+n] }
+else { dst.data = dst.data[:offset+n] }
 for i := 0; i < n; i++ { dst.SetSample(i+offset, src.Sample(i)) }
 alignCapacity(&dst.data, dst.Channels(), dst.Cap())
 ``` -/
